@@ -187,4 +187,20 @@ def linkFuel (g : Graph) : Nat → List Nat → Nat → Option (Outcome (List Na
       if seen.contains r then some (.ok seen)
       else linkFieldsWith (fun s r' => linkFuel g fuel s r') (r :: seen) (node.walkProps.map (·.field))
 
+/-- `assertRefsLink` for one package: a fresh `seenSchemas`, then `walkRootSchema` for every schema
+of the package (here: every node, in index order — Go ranges over a map, which changes at most
+which unresolved reference is reported first). `walkRootSchema` is entered directly, so the start
+nodes themselves need no link. -/
+def linkRoots (g : Graph) : List Nat → List Nat → Option (Outcome (List Nat))
+  | seen, [] => some (.ok seen)
+  | seen, r :: rs =>
+    match linkFuel g (g.length + 1) seen r with
+    | none => none
+    | some (.err e) => some (.err e)
+    | some (.panic w) => some (.panic w)
+    | some (.ok seen') => linkRoots g seen' rs
+
+def linkAll (g : Graph) : Option (Outcome (List Nat)) :=
+  linkRoots g [] (List.range g.length)
+
 end J5V.Pipe
